@@ -259,7 +259,7 @@ func runC07(c *Ctx) {
 				c.bad(dec, "returned frame", exitPos(r), "the frame returned on success is not the decodeFrame built from the prepared bytes")
 				continue
 			}
-			wantA := "2+4+ExtendedPayloadLengthBytes()+PayloadLength()"         // the 4 counted under IsMasked()
+			wantA := "2+4+ExtendedPayloadLengthBytes()+PayloadLength()"           // the 4 counted under IsMasked()
 			wantB := "2+ExtendedPayloadLengthBytes()+MaskBytes()+PayloadLength()" // MaskBytes() is 4 under IsMasked(), else 0
 			var plenCall ssa.Value
 			eachInstr(dec, func(in ssa.Instruction) {
